@@ -43,7 +43,10 @@ def _task(t):
           "distinct_traces": 0}
     viols = {}
     groups = {}
+    growing = n > 16 and any(op in ("pow", "lshift", "rshift") for op in O.expr_ops(prog["expr"]))
     for vec in E.input_vectors(prog, vals):
+        if growing and len(vec) > 1 and abs(vec[1]) > 1024:
+            continue        # exponents / shift counts of 2^32 and more (see pv/e1.py)
         key = tuple(vec[i] for i in const_idx)
         g = groups.setdefault(key, {})
         for mode in modes:
@@ -112,7 +115,8 @@ def validate_recorder(ctx, n):
 def run(ctx):
     progs = E.depth1_programs(include_fxp=True) + extra_programs()
     tasks = []
-    cfgs = [(3, REC.BN128), (2, REC.BLS12_381)] + ([(4, REC.CURVE25519), (8, REC.BN128)] if ctx.thorough else [])
+    # bitlength 65 / 128: values below and above the 64-bit word boundary must still give one trace
+    cfgs = [(3, REC.BN128), (2, REC.BLS12_381), (65, REC.BN128)] + ([(4, REC.CURVE25519), (8, REC.BN128), (128, REC.BLS12_381), (33, REC.BN128)] if ctx.thorough else [])
     for n, p in cfgs:
         vals = E.D(n) if n <= 3 else E.lattice(n)
         for prog in progs:
